@@ -27,6 +27,15 @@ CHECKS = {
         "Trusted: the carry-over rules stated in the property (CUSUM mean/std of the last burn_in observations, drifted batch as "
         "reference), numpy seeding as the only source of randomness.",
     ),
+    "C10": (
+        "exhaustive enumeration of all ordered pairs of small point multisets on the real partitioner (axiom oracles) + bounded exhaustive batch sequences on the real NNDVI in lock-step with a same-seed reference model",
+        "NNSpacePartitioner: all ordered pairs of multisets of 1-4 points from a 5-point menu in 1-D and 2-D for k in {1,2,3} are built on "
+        "the real class and checked against membership, kNN, symmetry, range, identity and formula oracles (squared distances in exact "
+        "arithmetic). NNDVI: every batch sequence over a 4-batch menu up to the stated depth for 24 configurations is executed on the real "
+        "detector and compared after every update with a reference model that reproduces the permutation threshold from the same numpy seed.",
+        "Trusted: numpy/scipy primitives, models/nnsp.py; the permutation draw protocol (sampling_times x np.random.permutation(v_ref)) is part of "
+        "the model; degenerate thresholds (all permutation distances equal -> NaN) follow the 'NaN -> no drift' rule.",
+    ),
     "C17": (
         "bounded exhaustive exploration of histories with all ladder settings in lock-step, differential first-drift oracle",
         "For each detector family a ladder of 3-4 values of the detection parameter is advanced in lock-step on every history of the "
